@@ -549,3 +549,33 @@ def write_table(ctx, config="all"):
     with open(leaves_table_path(), "w") as fh:
         json.dump({"comment": "operator impls that are real implementations (not forwarders); reviewed by reading", "leaves": leaves}, fh, indent=0)
     return len(leaves)
+
+
+def check_no_operand_narrowing(ctx, res, families=None, config="all"):
+    """no operator implementation narrows one of its scalar operands with a lossy `as` cast (the crate never does; a value
+    outside the narrower type would silently change the operation)"""
+    from . import tests as _t
+
+    facts = ctx.facts(config)
+    ops, classes = analyse(facts)
+    n = 0
+    for b in ops:
+        if families and family_of(b) not in families:
+            continue
+        at = None
+        bad = None
+        for i, si, s in b.stmts():
+            rv = s.get("rv")
+            if rv and rv["k"] == "cast" and rv["ck"] == "IntToInt" and not lossless_cast(rv["from"], rv["to"]):
+                if at is None:
+                    at = _t.Atoms(b)
+                a = at.of_operand(rv["op"])
+                if a and all(x[0] == "param" and not x[2] for x in a):
+                    bad = (rv["from"], rv["to"], s["span"]["line"])
+        n += 1
+        if bad:
+            res.fail(Finding("R2-operand-narrowed", b.path, "operand of type %s is narrowed to %s by an `as` cast (line %s): values that do not fit are silently changed before the operation" % bad, b, bad[2]))
+        else:
+            res.ok("R2-operand-narrowed", b.path, None, nontrivial=False)
+    res.distinct.add("R2-operand-narrowed:all")
+    res.clause("R2: no operator impl narrows a scalar operand with a lossy cast")
